@@ -125,15 +125,12 @@ def _compute_headers(cols, col_indices):
 	sanitized_names = []
 	dtypes = []
 	seen = set()
+	shown = set(col_indices)
 
-	for idx in col_indices:
-		col = cols[idx]
-
-		# Display name
-		disp = "" if col._name is None else col._name
-		display_names.append(disp)
-
-		# Sanitized dot name
+	# Walk ALL columns so that a repeated name gets the same indexed accessor as in the
+	# table's accessor map even when its first occurrence is elided from the preview
+	sanitized_by_idx = {}
+	for idx, col in enumerate(cols):
 		if col._name is not None and col._name != "":
 			san = _sanitize_user_name(col._name)
 			if san is None:
@@ -145,7 +142,17 @@ def _compute_headers(cols, col_indices):
 				seen.add(san)
 		else:
 			san = f"col{idx}_"
-		sanitized_names.append(san)
+		sanitized_by_idx[idx] = san
+
+	for idx in col_indices:
+		col = cols[idx]
+
+		# Display name
+		disp = "" if col._name is None else col._name
+		display_names.append(disp)
+
+		# Sanitized dot name
+		sanitized_names.append(sanitized_by_idx[idx])
 
 		# Dtype (with nullable indicator)
 		if col._dtype:
